@@ -358,10 +358,10 @@ def main():
             # with one instance that still fails is a violation already)
             fam = {}
             for (t, m, nm, ix) in retry:
-                fam.setdefault(stable(nm), []).append((t, m, timeout * 3, a.tier, nm, ix))
+                fam.setdefault(stable(nm), []).append((t, m, int(timeout * 2.5), a.tier, nm, ix))
             wave1 = [v[0] for v in fam.values()]
             outs3 = []
-            with ctx.Pool(6) as pool3:
+            with ctx.Pool(8) as pool3:
                 outs3 = pool3.map(phase3, wave1[:60], chunksize=1)
                 okfam = set()
                 for o3 in outs3:
